@@ -36,6 +36,10 @@ TEMPORAL_PROFILE = dict(
     interval_duration=0.55,
     t2s=False,  # restrict to the timed-to-sequential compiler's kind (no intermediate/timed/invariants)
     dur_params=0.0,
+    # widenings (all off by default: a profile that does not set them gets exactly the recipes it got before)
+    narrow_duration=0.0,  # probability that a duration interval is narrow relative to the time step (problem epsilon, 1/100 when unset)
+    locks=0.0,  # probability of a temporarily-changed-fluent ("resource lock") pattern in a durative action + a reader (TG.widen_locks)
+    amount_fluents=0.0,  # probability of an increase/decrease by a non-static numeric fluent + a writer of that fluent (FixedG.widen_amounts)
     # C01-grammar overrides
     max_depth=1,
     max_actions=3,
@@ -62,10 +66,88 @@ class FixedG(G):
         return [o for o, ot in self.objects if (ot[1] if isinstance(ot, list) else ot) in st]
 
 
+    # ---- widening: increase / decrease by an amount that another action changes --------------------------
+    def widen_amounts(self, rec):
+        """Adds (to the *instantaneous* recipe, i.e. before durativisation) an action that increases / decreases a numeric
+        fluent F by an amount that reads another numeric fluent A (`A`, `A + c`, `c * A`, `A - B`), and - unless the grammar's own
+        actions already write A - an action that writes A (assign / increase / decrease), so that A is not static and the order
+        of the two actions decides the accumulated value.  Fluents are taken from the grammar (parametrised ones included); a
+        0-ary numeric fluent is added when the problem has fewer than two numeric fluents of compatible types."""
+        r = self.rng
+        nf = [f for f in self.fluents if f["type"][0] in ("int", "real")]
+        pairs = [(F, A) for F in nf for A in nf if F is not A and (F["type"][0] == "real" or A["type"][0] == "int")]
+        if not pairs or r.random() < 0.25:
+            t = r.choice(["int", "int", "real"]) if self.pf["reals"] else "int"
+            dv = ["i", r.choice([0, 1, 1, 2, 3])]
+            A = {"name": self.name("f", len(self.fluents)), "type": [t, None, None], "sig": [], "default": dv}
+            self.fluents.append(A)
+            rec["fluents"] = self.fluents
+            nf.append(A)
+            pairs = [(F, A) for F in nf if F is not A and (F["type"][0] == "real" or t == "int")]
+            if not pairs:
+                F = {"name": self.name("f", len(self.fluents)), "type": ["real", None, None], "sig": [], "default": ["i", r.choice([0, 0, 1, 2])]}
+                self.fluents.append(F)
+                pairs = [(F, A)]
+        F, A = r.choice(pairs)
+        acts = rec["actions"]
+
+        def params_for(*fls):
+            ps = []
+            for f in fls:
+                for _, pt in f["sig"]:
+                    if r.random() < 0.7:
+                        ps.append([f"y{len(ps)}", pt])
+            return ps
+
+        params = params_for(F, A)
+        sc = {"params": params}
+        fe, ae = self.fluent_exp(F, sc, allow_fluent=False), self.fluent_exp(A, sc, allow_fluent=False)
+        if fe is None or ae is None:
+            return
+        int_only = F["type"][0] == "int"
+        x = r.random()
+        if x < 0.5:
+            amount = ae
+        elif x < 0.7:
+            amount = ["plus", ae, ["i", r.choice([1, 2])]]
+        elif x < 0.85:
+            amount = ["times", ae, ["i", r.choice([2, 3, -1])]]
+        else:
+            amount = ["minus", ae, self.num(0, sc, int_only)]
+        eff = {"kind": r.choice(["inc", "inc", "dec"]), "fluent": fe, "value": amount, "cond": None, "forall": []}
+        if self.pf["cond_effects"] and r.random() < 0.15:
+            eff["cond"] = self.boolean(1, sc)
+        effects = [eff]
+        if r.random() < 0.3:
+            e2 = self.effect(sc)
+            if e2 is not None and e2["fluent"][1] != F["name"]:
+                effects.append(e2)
+        pre = [self.boolean(1, sc)] if r.random() < 0.3 else []
+        acts.append({"name": self.name("a", len(acts)), "params": params, "pre": pre, "effects": effects})
+        self.feat.add("amount-fluent")
+        written = {e["fluent"][1] for a in acts for e in a["effects"]}
+        if A["name"] not in written or r.random() < 0.6:
+            params = params_for(A)
+            sc = {"params": params}
+            ae = self.fluent_exp(A, sc, allow_fluent=False)
+            if ae is None:
+                return
+            kind = r.choice(["assign", "assign", "inc", "dec"])
+            if kind == "assign":
+                val = self.const_for(A["type"])
+            else:
+                val = ["i", r.choice([1, 1, 2, 3])]
+            pre = [self.boolean(1, sc)] if r.random() < 0.3 else []
+            acts.append({"name": self.name("a", len(acts)), "params": params, "pre": pre, "effects": [{"kind": kind, "fluent": ae, "value": val, "cond": None, "forall": []}]})
+            self.feat.add("amount-fluent:writer-added")
+
+
 def gen_problem_fixed(rng, profile=None):
-    """Same contract as vk.gen.problem.gen_problem, with the repaired objs_of."""
+    """Same contract as vk.gen.problem.gen_problem, with the repaired objs_of (+ the widenings switched on in the profile)."""
     g = FixedG(rng, profile)
     rec = g.gen()
+    if g.pf.get("amount_fluents") and rng.random() < g.pf["amount_fluents"]:
+        g.widen_amounts(rec)
     return rec, sorted(g.feat)
 
 
@@ -102,6 +184,11 @@ class TG(FixedG):
         if r.random() < pf["interval_duration"]:
             kind = r.choice(["closed", "closed", "open", "lopen", "ropen"])
             w = Fraction(r.choice([H, 1, 1, Fraction(3, 2)]))
+            if pf.get("narrow_duration") and r.random() < pf["narrow_duration"]:
+                # width below / equal to / just above the time step the problem fixes (explicit epsilon or the default 1/100)
+                w = self.step * r.choice([Fraction(1, 2), 1, 1, 2])
+                kind = r.choice(["open", "open", "lopen", "ropen", "closed"])
+                self.feat.add("duration:narrow")
             if approx_lo is not None and r.random() < 0.85:
                 hi_e = _num(approx_lo + w)
             elif lo_e[0] in ("i", "r"):
@@ -170,6 +257,14 @@ class TG(FixedG):
     def gen_temporal(self):
         r, pf = self.rng, self.pf
         rec = self.gen()
+        if pf.get("amount_fluents") and r.random() < pf["amount_fluents"]:
+            self.widen_amounts(rec)
+        self.step, eps_early = Fraction(1, 100), None
+        if pf.get("narrow_duration"):
+            # the time step must be known before the durations are drawn
+            eps_early = r.choice(["1/100", "1/10", "1/10", "1", "1"]) if r.random() < pf["epsilon"] else ""
+            if eps_early:
+                self.step = Fraction(eps_early)
         init = {}
         for f in self.fluents:
             if f["default"] is not None and f["type"][0] in ("int", "real") and not f["sig"]:
@@ -186,6 +281,11 @@ class TG(FixedG):
                 acts.append(a)
                 self.feat.add("instantaneous")
         rec["actions"] = acts
+        if pf.get("locks") and r.random() < pf["locks"]:
+            self.widen_locks(rec)
+        if eps_early:
+            rec["epsilon"] = eps_early
+            self.feat.add("epsilon")
         if r.random() >= pf["keep_goals"]:
             rec["goals"] = []
         if pf["t2s"]:
@@ -223,10 +323,95 @@ class TG(FixedG):
                 tgs.append([iv, g])
             rec["timed_goals"] = tgs
             self.feat.add("timed-goal")
-        if r.random() < pf["epsilon"]:
+        if eps_early is None and r.random() < pf["epsilon"]:
             rec["epsilon"] = r.choice(["1/100", "1/100", "1/10", "1"])
             self.feat.add("epsilon")
         return rec
+
+    # ---- widening: a fluent changed for the duration of an action and set again at its end -----------------
+    def widen_locks(self, rec):
+        """One durative action gets, on a ground or parameter-indexed fluent expression `fe` it does not write otherwise:
+        a condition `fe == v0` at its start (sometimes none), a start effect `fe := v1` (v1 != v0) and an end effect
+        `fe := v0` (restoring; sometimes another value v2, sometimes none) - the resource-lock shape for v0 = true, also for
+        numeric and object-valued fluents.  Another action (an existing one, or a new one with a grammar effect) gets a
+        precondition `fe' == v` for v in {v0, v1} on the same fluent, so that plans in which a later step reads the value left
+        behind exist.  v0 is the initial value of `fe` when it is ground and defined initially."""
+        r = self.rng
+        acts = rec["actions"]
+        dur = [a for a in acts if "duration" in a]
+        if not dur:
+            return
+        a = r.choice(dur)
+        sc = {"params": a["params"]}
+        written = {e["fluent"][1] for _, e in a["effects"]}
+        cands = [f for f in self.fluents if f["name"] not in written] or list(self.fluents)
+        f = r.choice(cands)
+        fe = self.fluent_exp(f, sc, allow_fluent=False)
+        if fe is None:
+            return
+        v0 = None
+        if all(x[0] == "o" for x in fe[2:]):
+            for g, val in rec["init"]:
+                if g == fe:
+                    v0 = val
+            if v0 is None:
+                v0 = f["default"]
+        t = f["type"]
+        if v0 is None or r.random() < 0.15:
+            v0 = self.const_for(t)
+        if v0 is None:
+            return
+        others = []
+        for _ in range(6):
+            c = self.const_for(t)
+            if c is not None and c != v0 and c not in others:
+                others.append(c)
+        if not others:
+            return
+        v1 = others[0]
+        x = r.random()
+        v_end = v0 if x < 0.7 else (r.choice(others) if x < 0.85 else None)
+
+        def eq(e, v):
+            if t == "bool":
+                return e if v[1] else ["not", e]
+            return ["eq", e, v]
+
+        def assign(v):
+            return {"kind": "assign", "fluent": fe, "value": v, "cond": None, "forall": []}
+
+        if r.random() < 0.85:
+            a["conds"].append([["point", ["start", "0"]], eq(fe, v0)])
+        a["effects"].append([["start", "0"], assign(v1)])
+        if v_end is not None:
+            a["effects"].append([["end", "0"], assign(v_end)])
+        self.feat.add("lock")
+        if v_end == v0:
+            self.feat.add("lock:restoring")
+        # a reader of the value left behind
+        v = r.choice([v0, v1, v1])
+        rest = [b for b in acts if b is not a]
+        if rest and r.random() < 0.5:
+            b = r.choice(rest)
+            fe2 = self.fluent_exp(f, {"params": b["params"]}, allow_fluent=False)
+            if fe2 is None:
+                return
+            if "duration" in b:
+                b["conds"].append([["point", ["start", "0"]], eq(fe2, v)])
+            else:
+                b["pre"].append(eq(fe2, v))
+        else:
+            params = [[f"y{j}", pt] for j, (_, pt) in enumerate(f["sig"])] if r.random() < 0.6 else []
+            sc2 = {"params": params}
+            fe2 = self.fluent_exp(f, sc2, allow_fluent=False)
+            e2 = self.effect(sc2)
+            if fe2 is None or e2 is None:
+                return
+            b = {"name": self.name("a", len(acts)), "params": params, "pre": [eq(fe2, v)], "effects": [e2]}
+            if r.random() < 0.5:
+                b = self.durativize(b, {})
+            acts.append(b)
+        self.feat.add("lock:reader")
 
 
 def gen_temporal(rng, profile=None):
